@@ -167,6 +167,11 @@ def main(argv=None):
             if not ok:
                 broken.append(f"canary {jr['tag']} was not refuted (engine unsound or blind): {jr.get('error') or jr.get('inapplicable')}")
         P["canaries"] = len(canres)
+        if hasattr(mod, "extra_canaries") and not broken:
+            for name, ok in mod.extra_canaries(args.tier):
+                P["canaries"] += 1
+                if not ok:
+                    broken.append(f"canary not refuted: {name}")
         allr = [r for jr in results for r in jr.get("results", [])] + structural
         kinds = {}
         for r in allr:
